@@ -5,6 +5,7 @@ import (
 	"strconv"
 
 	"go.mongodb.org/mongo-driver/bson"
+	"go.mongodb.org/mongo-driver/bson/primitive"
 )
 
 // MissingType is the type of the Missing value.
@@ -291,10 +292,14 @@ func Increment(doc Doc, path string, increment interface{}) (interface{}, error)
 	}
 
 	// increment field
-	field = Add(field, increment)
-	if field == Missing {
+	sum := Add(field, increment)
+	if sum == Missing {
+		if isNumber(field) && isNumber(increment) {
+			return nil, fmt.Errorf("increment overflows the 64 bit integer range")
+		}
 		return nil, fmt.Errorf("incrementee or increment is not a number")
 	}
+	field = sum
 
 	// update field
 	_, err := Put(doc, path, field, false)
@@ -303,6 +308,14 @@ func Increment(doc Doc, path string, increment interface{}) (interface{}, error)
 	}
 
 	return field, nil
+}
+
+func isNumber(v interface{}) bool {
+	switch v.(type) {
+	case int32, int64, float64, primitive.Decimal128:
+		return true
+	}
+	return false
 }
 
 // Multiply will multiply the multiplier with the value at the location in the
@@ -322,10 +335,14 @@ func Multiply(doc Doc, path string, multiplier interface{}) (interface{}, error)
 	}
 
 	// multiply
-	field = Mul(field, multiplier)
-	if field == Missing {
+	product := Mul(field, multiplier)
+	if product == Missing {
+		if isNumber(field) && isNumber(multiplier) {
+			return nil, fmt.Errorf("multiplication overflows the 64 bit integer range")
+		}
 		return nil, fmt.Errorf("multiplicand or multiplier is not a number")
 	}
+	field = product
 
 	// update field
 	_, err := Put(doc, path, field, false)
